@@ -1,9 +1,315 @@
 package main
 
-// Civil-form time model (cron Next harnesses). Filled in by civil_impl.go; until then every entry point is UNSUPPORTED.
+// Civil-form model of time.Time for the cron Next harnesses: the instant is kept as calendar fields so that
+// Minute(), Hour() ... are field reads and Add/AddDate/Date/Truncate are carry chains (ite terms) - no division of a
+// 64-bit instant by 60/3600/86400 ever reaches the solver (see DESIGN.md section 7). One fixed location per value.
+
+import "fmt"
 
 type Civil struct {
-	y, mo, d, h, mi, s *Term // bv16 each
-	ns                 *Term // bv32
-	off                *Term // bv32 seconds east of UTC
+	y, mo, d, h, mi, s *Term // bv64 each (Go int)
+	ns                 *Term // bv64, 0..999999999
+	w                  *Term // weekday 0..6 (Sunday = 0); nil = unknown (reading it is UNSUPPORTED)
+}
+
+func (m *Machine) c64(v uint64) *Term { return m.tt.BV(v, 64) }
+
+// calendar fields are 16-bit terms internally (cheap for the solver); accessors zero-extend to Go's int
+const cw = 16
+
+func (m *Machine) cf(v uint64) *Term { return m.tt.BV(v, cw) }
+
+// daysIn gives the number of days of month mo in year y (Gregorian), as an ite chain.
+func (m *Machine) daysIn(y, mo *Term) *Term {
+	tt := m.tt
+	// leap: y%4==0 && (y%100!=0 || y%400==0); inside 1901..2099 this is y%4==0, i.e. the two low bits are zero
+	leap := tt.Eq(tt.Extract(y, 1, 0), tt.BV(0, 2))
+	feb := tt.Ite(leap, m.cf(29), m.cf(28))
+	is := func(k uint64) *Term { return tt.Eq(mo, m.cf(k)) }
+	thirty := tt.Or(is(4), is(6), is(9), is(11))
+	return tt.Ite(is(2), feb, tt.Ite(thirty, m.cf(30), m.cf(31)))
+}
+
+func (m *Machine) newCivilInput(name string, loc Value) TimeV {
+	tt := m.tt
+	mk := func(f string) *Term { return m.newScalarInput(name+"."+f, cw, "int") }
+	c := &Civil{y: mk("year"), mo: mk("month"), d: mk("day"), h: mk("hour"), mi: mk("minute"), s: mk("second"), w: mk("weekday")}
+	c.ns = m.newScalarInput(name+".nanosecond", 32, "int")
+	rng := func(t *Term, lo, hi uint64) *Term {
+		return tt.And(tt.Cmp(OpULE, tt.BV(lo, t.w), t), tt.Cmp(OpULE, t, tt.BV(hi, t.w)))
+	}
+	valid := tt.And(rng(c.y, 1971, 2090), rng(c.mo, 1, 12), rng(c.d, 1, 31), tt.Cmp(OpULE, c.d, m.daysIn(c.y, c.mo)),
+		rng(c.h, 0, 23), rng(c.mi, 0, 59), rng(c.s, 0, 59), rng(c.ns, 0, 999999999), rng(c.w, 0, 6))
+	m.decide(1, func(int) *Term { return valid })
+	return TimeV{civ: c, zero: tt.ff, ns: m.c64(0), loc: loc}
+}
+
+func (m *Machine) civilOf(t TimeV, what string) *Civil {
+	if t.civ == nil {
+		panic(unsupported(what + ": civil-form operation on a flat time value"))
+	}
+	m.assumeSupported(m.tt.Not(t.zero), what+" on the zero time (civil model)")
+	return t.civ
+}
+
+// carry chains ---------------------------------------------------------------------------------------------------
+
+func (m *Machine) civAddDay(c *Civil) *Civil {
+	tt := m.tt
+	one := m.cf(1)
+	last := tt.Eq(c.d, m.daysIn(c.y, c.mo))
+	dec := tt.Eq(c.mo, m.cf(12))
+	n := *c
+	n.d = tt.Ite(last, one, tt.Bin(OpAdd, c.d, one))
+	n.mo = tt.Ite(last, tt.Ite(dec, one, tt.Bin(OpAdd, c.mo, one)), c.mo)
+	n.y = tt.Ite(tt.And(last, dec), tt.Bin(OpAdd, c.y, one), c.y)
+	if c.w != nil {
+		n.w = tt.Ite(tt.Eq(c.w, m.cf(6)), m.cf(0), tt.Bin(OpAdd, c.w, one))
+	}
+	return &n
+}
+
+func (m *Machine) civSel(cond *Term, a, b *Civil) *Civil {
+	tt := m.tt
+	r := &Civil{y: tt.Ite(cond, a.y, b.y), mo: tt.Ite(cond, a.mo, b.mo), d: tt.Ite(cond, a.d, b.d), h: tt.Ite(cond, a.h, b.h),
+		mi: tt.Ite(cond, a.mi, b.mi), s: tt.Ite(cond, a.s, b.s), ns: tt.Ite(cond, a.ns, b.ns)}
+	if a.w != nil && b.w != nil {
+		r.w = tt.Ite(cond, a.w, b.w)
+	}
+	return r
+}
+
+func (m *Machine) civAddHour(c *Civil) *Civil {
+	tt := m.tt
+	wrap := tt.Eq(c.h, m.cf(23))
+	next := m.civAddDay(c)
+	next.h = m.cf(0)
+	same := *c
+	same.h = tt.Bin(OpAdd, c.h, m.cf(1))
+	return m.civSel(wrap, next, &same)
+}
+
+func (m *Machine) civAddMinute(c *Civil) *Civil {
+	tt := m.tt
+	wrap := tt.Eq(c.mi, m.cf(59))
+	z := *c
+	z.mi = m.cf(0)
+	next := m.civAddHour(&z)
+	same := *c
+	same.mi = tt.Bin(OpAdd, c.mi, m.cf(1))
+	return m.civSel(wrap, next, &same)
+}
+
+func (m *Machine) civAddSecond(c *Civil) *Civil {
+	tt := m.tt
+	wrap := tt.Eq(c.s, m.cf(59))
+	z := *c
+	z.s = m.cf(0)
+	next := m.civAddMinute(&z)
+	same := *c
+	same.s = tt.Bin(OpAdd, c.s, m.cf(1))
+	return m.civSel(wrap, next, &same)
+}
+
+// intrinsics ---------------------------------------------------------------------------------------------------------
+
+func (m *Machine) civilAdd(t TimeV, d *Term) Value {
+	c := m.civilOf(t, "Add")
+	mk := func(n *Civil) Value { return TimeV{civ: n, zero: m.tt.ff, ns: m.c64(0), loc: t.loc} }
+	if d.IsConst() {
+		switch d.SInt() {
+		case 0:
+			return t
+		case 1_000_000_000:
+			return mk(m.civAddSecond(c))
+		case 60_000_000_000:
+			return mk(m.civAddMinute(c))
+		case 3_600_000_000_000:
+			return mk(m.civAddHour(c))
+		}
+		panic(unsupported(fmt.Sprintf("civil Add of constant %d ns", d.SInt())))
+	}
+	// 1s - t.Nanosecond(): start of the next whole second
+	if d.op == OpSub && d.args[0].IsConst() && d.args[0].val == 1_000_000_000 && d.args[1] == m.tt.ZExt(c.ns, 64) {
+		z := *c
+		z.ns = m.tt.BV(0, 32)
+		return mk(m.civAddSecond(&z))
+	}
+	if d.op == OpAdd && d.args[1].IsConst() && d.args[1].val == 1_000_000_000 && d.args[0].op == OpNeg && d.args[0].args[0] == m.tt.ZExt(c.ns, 64) {
+		z := *c
+		z.ns = m.tt.BV(0, 32)
+		return mk(m.civAddSecond(&z))
+	}
+	panic(unsupported("civil Add of a symbolic duration " + d.String()))
+}
+
+func (m *Machine) civilSub(t, u TimeV) Value { panic(unsupported("civil Sub")) }
+
+func (m *Machine) civilCmp(kind string, t, u TimeV) Value {
+	tt := m.tt
+	// the zero Time (year 1) is before every modelled instant
+	if t.civ == nil || u.civ == nil {
+		tz, uz := t.zero, u.zero
+		if (t.civ == nil && !tz.IsTrue()) || (u.civ == nil && !uz.IsTrue()) {
+			panic(unsupported("comparison of civil and flat time values"))
+		}
+		lt := tt.And(tz, tt.Not(uz))
+		gt := tt.And(uz, tt.Not(tz))
+		switch kind {
+		case "Before":
+			return lt
+		case "After":
+			return gt
+		case "Equal":
+			return tt.And(tz, uz)
+		}
+		return tt.Ite(lt, m.c64(^uint64(0)), tt.Ite(gt, m.c64(1), m.c64(0)))
+	}
+	a, b := t.civ, u.civ
+	fa := []*Term{a.y, a.mo, a.d, a.h, a.mi, a.s, a.ns}
+	fb := []*Term{b.y, b.mo, b.d, b.h, b.mi, b.s, b.ns}
+	lt, eq := tt.ff, tt.tt
+	for i := len(fa) - 1; i >= 0; i-- {
+		e := tt.Eq(fa[i], fb[i])
+		lt = tt.Ite(e, lt, tt.Cmp(OpSLT, fa[i], fb[i]))
+		eq = tt.And(e, eq)
+	}
+	switch kind {
+	case "Before":
+		return lt
+	case "After":
+		return tt.And(tt.Not(lt), tt.Not(eq))
+	case "Equal":
+		return eq
+	}
+	return tt.Ite(lt, m.c64(^uint64(0)), tt.Ite(eq, m.c64(0), m.c64(1)))
+}
+
+func (m *Machine) civilIn(t TimeV, loc Value) Value {
+	if t.loc != nil && m.equal(t.loc, loc).IsTrue() {
+		return t
+	}
+	panic(unsupported("civil In with a different location"))
+}
+
+func (m *Machine) civilField(t TimeV, n string) Value {
+	c := m.civilOf(t, n)
+	z := func(t *Term) Value { return m.tt.ZExt(t, 64) }
+	switch n {
+	case "Year":
+		return z(c.y)
+	case "Month":
+		return z(c.mo)
+	case "Day":
+		return z(c.d)
+	case "Hour":
+		return z(c.h)
+	case "Minute":
+		return z(c.mi)
+	case "Second":
+		return z(c.s)
+	case "Nanosecond":
+		return z(c.ns)
+	case "Weekday":
+		if c.w == nil {
+			panic(unsupported("weekday of a civil time built by time.Date from unrelated fields"))
+		}
+		return z(c.w)
+	}
+	panic(unsupported("civil field " + n))
+}
+
+func (m *Machine) civilTruncate(t TimeV, d *Term) Value {
+	c := m.civilOf(t, "Truncate")
+	if !d.IsConst() {
+		panic(unsupported("civil Truncate with symbolic duration"))
+	}
+	n := *c
+	switch d.SInt() {
+	case 1_000_000_000:
+		n.ns = m.tt.BV(0, 32)
+	case 60_000_000_000:
+		n.ns, n.s = m.tt.BV(0, 32), m.cf(0)
+	case 3_600_000_000_000:
+		n.ns, n.s, n.mi = m.tt.BV(0, 32), m.cf(0), m.cf(0)
+	default:
+		panic(unsupported("civil Truncate to this unit"))
+	}
+	return TimeV{civ: &n, zero: m.tt.ff, ns: m.c64(0), loc: t.loc}
+}
+
+func (m *Machine) civilAddDate(t TimeV, y, mo, d *Term) Value {
+	c := m.civilOf(t, "AddDate")
+	if !y.IsConst() || !mo.IsConst() || !d.IsConst() {
+		panic(unsupported("civil AddDate with symbolic amounts"))
+	}
+	mk := func(n *Civil) Value { return TimeV{civ: n, zero: m.tt.ff, ns: m.c64(0), loc: t.loc} }
+	tt := m.tt
+	switch {
+	case y.val == 0 && mo.val == 0 && d.val == 1:
+		return mk(m.civAddDay(c))
+	case y.val == 0 && mo.val == 1 && d.val == 0:
+		// no day overflow possible when the day is <= 28 (Next calls this on the first of a month)
+		m.assumeSupported(tt.Cmp(OpULE, c.d, m.cf(28)), "AddDate(0,1,0) with day > 28 (normalisation not modelled)")
+		dec := tt.Eq(c.mo, m.cf(12))
+		n := *c
+		n.mo = tt.Ite(dec, m.cf(1), tt.Bin(OpAdd, c.mo, m.cf(1)))
+		n.y = tt.Ite(dec, tt.Bin(OpAdd, c.y, m.cf(1)), c.y)
+		if c.w != nil {
+			// weekday advances by days-in-month mod 7
+			dim := m.daysIn(c.y, c.mo)
+			adv := tt.Bin(OpSub, dim, m.cf(28)) // 0..3
+			s := tt.Bin(OpAdd, c.w, adv)
+			n.w = tt.Ite(tt.Cmp(OpULE, m.cf(7), s), tt.Bin(OpSub, s, m.cf(7)), s)
+		}
+		return mk(&n)
+	}
+	panic(unsupported("civil AddDate with these amounts"))
+}
+
+// civilDate: time.Date(y, mo, d, h, mi, s, ns, loc). Supported when (y, mo) are the fields of a civil value seen
+// before and d is that value's day or the constant 1 (what SpecSchedule.Next does); the weekday is derived from it.
+func (m *Machine) civilDate(a []Value) Value {
+	tt := m.tt
+	nar := func(v Value, w int) *Term { return tt.Extract(v.(*Term), w-1, 0) }
+	y, mo, d := nar(a[0], cw), nar(a[1], cw), nar(a[2], cw)
+	h, mi, s, ns := nar(a[3], cw), nar(a[4], cw), nar(a[5], cw), nar(a[6], 32)
+	n := &Civil{y: y, mo: mo, d: d, h: h, mi: mi, s: s, ns: ns}
+	for i := len(m.civSeen) - 1; i >= 0; i-- {
+		b := m.civSeen[i]
+		if b.y == y && b.mo == mo && b.w != nil {
+			if b.d == d {
+				n.w = b.w
+				break
+			}
+			if d.IsConst() && d.val == 1 {
+				// weekday of the first = w - (day-1) mod 7
+				off := tt.Bin(OpURem, tt.Bin(OpSub, b.d, m.cf(1)), m.cf(7)) // day <= 31: cheap remainder by ite chain below
+				if !off.IsConst() {
+					off = m.smallMod7(tt.Bin(OpSub, b.d, m.cf(1)))
+				}
+				s := tt.Bin(OpAdd, tt.Bin(OpSub, b.w, off), m.cf(7))
+				n.w = tt.Ite(tt.Cmp(OpULE, m.cf(7), s), tt.Bin(OpSub, s, m.cf(7)), s)
+				break
+			}
+		}
+	}
+	// the fields must already be normalised (true for what Next passes)
+	return TimeV{civ: n, zero: tt.ff, ns: m.c64(0), loc: a[7]}
+}
+
+// smallMod7: x mod 7 for 0 <= x <= 34 as an ite chain (no division).
+func (m *Machine) smallMod7(x *Term) *Term {
+	tt := m.tt
+	r := x
+	for _, k := range []uint64{28, 21, 14, 7} {
+		r = tt.Ite(tt.Cmp(OpULE, m.cf(k), x), tt.Bin(OpSub, x, m.cf(k)), r)
+		_ = k
+	}
+	// the chain above picks the largest multiple not exceeding x only if evaluated from large to small with guards
+	res := x
+	for _, k := range []uint64{7, 14, 21, 28} {
+		res = tt.Ite(tt.Cmp(OpULE, m.cf(k), x), tt.Bin(OpSub, x, m.cf(k)), res)
+	}
+	return res
 }
